@@ -140,8 +140,10 @@ def run_case(case):
         after = sandbox.snapshot()
         pathcls = "info" if k - 1 < len(ops) and "/info/" in str(ops[k - 1][3][:1]) else \
             "files" if k - 1 < len(ops) and "/files/" in str(ops[k - 1][3][:1]) else "other"
+        # did this run enter the cross-device copy+delete fallback (a rename answered EXDEV)?
+        xdev = any(t[2] in ("rename", "replace") and t[4] == "E18" for t in r.trace)
         tags = dict(op=opname.replace("pair:", ""), mode="pair" if opname.startswith("pair") else mode,
-                    errno=case["errno"], pathcls=pathcls, target=case["target"])
+                    errno=case["errno"], pathcls=pathcls, target=case["target"], xdev=xdev)
         what = "%s on op %d/%d (%s %s), %s" % (case["errno"], k, n, opname,
                                               ops[k - 1][3][:1] if k - 1 < len(ops) else "", tags["mode"])
         oc = judge(out, case, spec, files, before, after, r, tags, what, n)
